@@ -22,6 +22,15 @@ CLAIMED = {
             '§6 C14',
             'hand model of lexer/enumerated.rs numbering (saturation at i128::MAX not modelled); syn projection of discriminants',
             'Coq proof (induction over item lists) + differential correspondence'),
+    'C16': ('proof',
+            'Theorems for ASN.1 identifiers of any length: each of the four conversions yields a legal non-keyword Rust identifier '
+            '(keyword table re-translated from the source; escape completeness against the Rust 2021 strict+reserved list is a '
+            'recomputed finite check), keeps the alphanumeric skeleton up to the r_/R_ escape, and the identifier annotation rule; '
+            'hand model of the conversions tied by correspondence (exhaustive small alphabet, all keywords, random <=24 chars) '
+            'and end-to-end in six roles; Spec oracle in Coq',
+            '§6 C16',
+            'ASCII identifiers only (lexer guarantees); hand model of to_rust_* (char_indices/peek loop) tied by H7',
+            'Coq proof (induction on strings) + translated keyword table + differential correspondence'),
 }
 NOT_YET = 'check not built yet in this session (planned, see DESIGN.md §6); not claimed until its proof and correspondence run'
 
